@@ -397,6 +397,9 @@ def run_c03(ctx, ck):
     compare(ctx, s, "strings with non-ASCII bytes under the C locale and under a UTF-8 locale against the reference semantics (bytes, as in Go)",
             sig, describe_prog, lambda k, s_: k[0] in ("run", "lrun"), oracle=locale_oracle)
     ctx.cov.setdefault("distribution", {}).update(s["meta"])
+    ctx.cov["flat_shell_model_with_call_oracle_validated_against_bash"] = FLAT_STATS.get("defined", 0)
+    ctx.cov["source_semantics_J_validated_against_reference"] = FLAT_STATS.get("jdefined", 0)
+    ctx.cov["programs_on_which_every_hypothesis_of_the_whole_program_theorem_holds"] = FLAT_STATS.get("theorem", 0)
 
 
 def run_c04(ctx, ck):
